@@ -15,10 +15,10 @@ LEVEL = 'exploration'
 RULE = ('1-5 always-on ledger processes with constant or invocation-indexed timesteps on a dyadic grid (exact '
         'floats) or a decimal grid with global_time_precision 1-3; 1-7 run_for(interval, force)/update(interval) '
         'calls, run lengths not divisible by the timesteps, several forced completions per sequence, nonzero '
-        'initial time, every sequence ends with update(); non-trivial = >=2 processes or >=3 calls, and at least '
+        'initial time, every sequence ends with update(); in 30% of the cases some processes carry an update condition (their intervals must not overlap); non-trivial = >=2 processes or >=3 calls, and at least '
         'one interval truncated by forced completion or deferred across a call boundary; distinct = distinct spec')
 PLAN = {'quick': {'n': 20000, 'min_cases': 1500}, 'thorough': {'n': 250000, 'min_cases': 30000}}
-REQUIRED_ORACLES = ['contiguous', 'argument_is_interval', 'requested_or_truncated', 'sum_is_elapsed',
+REQUIRED_ORACLES = ['non_overlapping', 'contiguous', 'argument_is_interval', 'requested_or_truncated', 'sum_is_elapsed',
                     'clock_accumulator', 'nothing_pending']
 ANCHORS = ['vivarium.core.engine:Engine.run_for', 'vivarium.core.engine:Engine.update',
            'vivarium.core.engine:Engine._check_complete', 'vivarium.core.process:Process.calculate_timestep']
@@ -35,6 +35,18 @@ def gen(r, tier, i):
         t0 = r.choice([0, 0, float(r.choice(sched.DEC[prec]['iv']))])
     n = r.randint(1, 5)
     procs = [{'pid': pid, 'ts': sched.gen_ts(r, grid, prec)} for pid in range(n)]
+    if r.random() < 0.3:
+        # some processes with an update condition: their intervals must still not overlap
+        for p in procs[1:] or procs:
+            c = r.random()
+            if c < 0.35:
+                p['cond'] = 'flag'
+            elif c < 0.5:
+                p['cond_path'] = True
+            elif c < 0.7:
+                p['cond'] = {'seq': [r.random() < 0.6 for _ in range(r.randint(2, 6))]}
+        for p in procs:
+            p['toggle'] = r.choice([0, 1, 2, 3])
     calls = sched.cap_events(r, procs, sched.gen_calls(r, grid, prec, maxcalls=6, end_with_update=True), grid, prec)
     return {'grid': grid, 'precision': prec, 't0': t0, 'procs': procs, 'calls': calls}
 
@@ -82,6 +94,21 @@ def run(spec):
         toks = applied.get(pid, [])
         prev = t0
         total = F(0)
+        if p.get('cond') or p.get('cond_path'):
+            # conditional process: intervals [apply - ts, apply] do not overlap and start after it entered
+            for n, (tok, at) in enumerate(toks):
+                ts = exact(tok[2], grid)
+                A = exact(at, grid)
+                V.check('non_overlapping', A - ts >= prev,
+                        lambda: ('interval [%r, %r] of process %d overlaps its previous interval ending at %r' % (
+                            float(A - ts), at, pid, float(prev)), tok[1]))
+                prev = A
+                total += ts
+            if ok:
+                V.check('non_overlapping', total <= exact(e.global_time, grid) - t0,
+                        lambda: ('timesteps handed to conditional process %d sum to %r, more than the %r elapsed' % (
+                            pid, float(total), float(exact(e.global_time, grid) - t0)),))
+            continue
         for n, (tok, at) in enumerate(toks):
             ts = exact(tok[2], grid)
             A = exact(at, grid)
@@ -123,6 +150,8 @@ def run(spec):
             # no update was applied at T (every process truncated to zero length?) - use the live state
             continue
         for p in spec['procs']:
+            if p.get('cond') or p.get('cond_path'):
+                continue
             c = row.get('clock', {}).get('p%d' % p['pid'])
             V.check('clock_accumulator', c is not None and abs(c - (T - spec['t0'])) <= 1e-9 * (1 + abs(T)) and
                     (grid != 'dyadic' or c == T - spec['t0']),
